@@ -4,6 +4,16 @@ from pyvc.driver import main
 from contracts import c10_codec
 
 
+def custom_native(ip, runner):
+    from pyvc.driver import native_bounded
+    return [native_bounded(runner, 'codec-roundtrips', 'mpint encodings equal RFC 4251 section 5 / SSH-1 encodings and decode back; KEXINIT and SSH-1 public-key messages round-trip field by field and re-encode to the same bytes',
+                           c10_codec.NATIVE_ROUNDTRIP, '~1900 integers of both signs (dense around 0 and +-2^k, k up to 8192, boundary word patterns, 300 random up to 600 bits); 30 KEXINITs with ten pairwise different name-lists; 3 SSH-1 messages',
+                           'WriteBuf._create_mpint'),
+            native_bounded(runner, 'ssh1-crc32', 'table entry i == bitwise CRC of byte i (all 256); calc(v) == bitwise reflected CRC-32 (poly 0xEDB88320, init 0, no final xor)',
+                           c10_codec.NATIVE_CRC, 'all 256 table entries; all 1-byte inputs, 1024 2-byte inputs, 200 random inputs up to 199 bytes',
+                           'SSH1_CRC32.calc')]
+
+
 def build(chk, ip, runner):
     import os
     ip.repo.add_module('rt_codec', os.path.join(os.path.dirname(os.path.dirname(os.path.abspath(__file__))), 'contracts', 'compose', 'rt_codec.py'))
@@ -11,6 +21,7 @@ def build(chk, ip, runner):
     chk.lemmas = list(c10_codec.LEMMAS)
     chk.units = c10_codec.units()
     chk.stubs = c10_codec.stubs()
+    chk.customs = [custom_native]
 
 
 if __name__ == '__main__':
